@@ -822,6 +822,11 @@ func (ch *clientHost) checkRedirect(repo string, orig func(req *http.Request, vi
 		if len(via) >= 10 {
 			return errors.New("stopped after 10 redirects")
 		}
+		// net/http keeps the Authorization header of the first request on a redirect to a sub-domain or
+		// to the same host name with another port, those are other hosts: only a handler for that host adds one
+		if len(via) > 0 && req.URL.Host != via[0].URL.Host {
+			req.Header.Del("Authorization")
+		}
 		// add auth headers if appropriate for the target host
 		hAuth := ch.getAuth(repo)
 		err := hAuth.UpdateRequest(req)
